@@ -429,6 +429,19 @@ fn hover_text(p: &GProg, t: &Ty) -> Option<String> {
 }
 
 fn make_hover(d: &mut Dec, ctx: &mut Ctx, tier: Tier) -> Value {
+    if d.chance(40) {
+        // method names in calls on receivers of generic instances: the type at that call
+        let (text, ms) = method_program_ex(d, true);
+        let marks: Vec<Value> = ms
+            .iter()
+            .map(|(line, col, name, ty)| {
+                let at = if d.bool() { "start" } else { "middle" };
+                let c = if at == "start" { *col } else { col + (name.len() / 2) as u32 };
+                json!({"line":line,"col":c,"at":at,"name":name,"binder":false,"expect":ty,"nested":false,"shadowed":false,"method":true})
+            })
+            .collect();
+        return json!({"kind":"hover","text":text,"marks":marks,"literals":[]});
+    }
     let nodes = 20 + d.below(tier.pick(40, 90) as usize) as u32;
     let mut cfg = small_cfg(nodes);
     cfg.ticks = d.bool();
@@ -551,6 +564,10 @@ fn judge_hover(input: &Value, ctx: &mut Ctx) -> CaseOut {
                     key,
                 )
             }
+        }
+        if m["method"].as_bool() == Some(true) {
+            labels.push("mark:method-name".into());
+            nontrivial = true;
         }
         labels.push(if binder { "mark:binder".into() } else { "mark:use".into() });
         labels.push(format!("at:{}", m["at"].as_str().unwrap_or("start")));
@@ -737,31 +754,91 @@ fn imports_of(text: &str) -> Vec<String> {
 /// a program with generic and plain types, inherent impls (generic ones and ones on a single
 /// instantiation), a trait impl, and let-bound receivers of several instantiations
 fn method_program(d: &mut Dec) -> String {
+    method_program_ex(d, false).0
+}
+
+/// the same, optionally with method calls on every receiver in `main`; the second result lists
+/// (line, column of the method name, method name, the method's type at that call)
+fn method_program_ex(d: &mut Dec, with_calls: bool) -> (String, Vec<(u32, u32, String, String)>) {
     let prims = [("int32", "1"), ("string", "\"s\""), ("bool", "true"), ("int64", "2i64")];
     let spec = d.below(prims.len());
-    let gname = ["Box", "Cell", "Wrap"][d.below(3)];
+    let two = d.chance(110);
+    let gname = if two { ["Pair", "Duo"][d.below(2)] } else { ["Box", "Cell", "Wrap"][d.below(3)] };
     let mut t = String::new();
-    t.push_str(&format!("struct {gname}[T] {{\n    value: T,\n    tag: int32,\n}}\n\n"));
-    t.push_str(&format!("impl[T] {gname}[T] {{\n    fn get(self: {gname}[T]) -> T {{\n        self.value\n    }}\n}}\n\n"));
-    // methods that exist for one instantiation only
-    let (st, _) = prims[spec];
+    // (receiver type text, literal) per receiver; (method, type text) per receiver
+    let mut recvs: Vec<(String, String)> = vec![];
+    let mut meths: Vec<Vec<(String, String)>> = vec![];
     let only = ["double", "only_here", "special"][d.below(3)];
-    t.push_str(&format!("impl {gname}[{st}] {{\n    fn {only}(self: {gname}[{st}]) -> int32 {{\n        self.tag\n    }}\n}}\n\n"));
-    if d.bool() {
+    let n = 2 + d.below(3);
+    if two {
+        t.push_str(&format!("struct {gname}[A, B] {{\n    first: A,\n    second: B,\n    tag: int32,\n}}\n\n"));
+        t.push_str(&format!("impl[A, B] {gname}[A, B] {{\n    fn get(self: {gname}[A, B]) -> A {{\n        self.first\n    }}\n}}\n\n"));
+        // an impl for one instance; other receivers share one of its two arguments
+        let (a0, _) = prims[spec];
+        let (b0, _) = prims[(spec + 1) % prims.len()];
+        t.push_str(&format!("impl {gname}[{a0}, {b0}] {{\n    fn {only}(self: {gname}[{a0}, {b0}]) -> int32 {{\n        self.tag\n    }}\n}}\n\n"));
+        for i in 0..n {
+            let (a, al) = if i % 2 == 0 { prims[spec] } else { prims[(spec + 2) % prims.len()] };
+            let (b, bl) = if i < 2 { prims[(spec + 1) % prims.len()] } else { prims[(spec + 3) % prims.len()] };
+            let ty = format!("{gname}[{a}, {b}]");
+            let mut ms = vec![("get".to_string(), format!("({ty}) -> {a}"))];
+            if a == a0 && b == b0 {
+                ms.push((only.to_string(), format!("({ty}) -> int32")));
+            }
+            recvs.push((ty, format!("{gname} {{ first: {al}, second: {bl}, tag: {i} }}")));
+            meths.push(ms);
+        }
+    } else {
+        t.push_str(&format!("struct {gname}[T] {{\n    value: T,\n    tag: int32,\n}}\n\n"));
+        t.push_str(&format!("impl[T] {gname}[T] {{\n    fn get(self: {gname}[T]) -> T {{\n        self.value\n    }}\n}}\n\n"));
+        // methods that exist for one instantiation only
+        let (st, _) = prims[spec];
+        t.push_str(&format!("impl {gname}[{st}] {{\n    fn {only}(self: {gname}[{st}]) -> int32 {{\n        self.tag\n    }}\n}}\n\n"));
+        let second = d.bool();
         let (st2, _) = prims[(spec + 1) % prims.len()];
-        t.push_str(&format!("impl {gname}[{st2}] {{\n    fn other(self: {gname}[{st2}]) -> int32 {{\n        self.tag + 1\n    }}\n}}\n\n"));
+        if second {
+            t.push_str(&format!("impl {gname}[{st2}] {{\n    fn other(self: {gname}[{st2}]) -> int32 {{\n        self.tag + 1\n    }}\n}}\n\n"));
+        }
+        for i in 0..n {
+            let (ty0, lit) = prims[(spec + i) % prims.len()];
+            let ty = format!("{gname}[{ty0}]");
+            let mut ms = vec![("get".to_string(), format!("({ty}) -> {ty0}"))];
+            if ty0 == st {
+                ms.push((only.to_string(), format!("({ty}) -> int32")));
+            }
+            if second && ty0 == st2 {
+                ms.push(("other".to_string(), format!("({ty}) -> int32")));
+            }
+            recvs.push((ty, format!("{gname} {{ value: {lit}, tag: {i} }}")));
+            meths.push(ms);
+        }
     }
     t.push_str("struct P {\n    x: int32,\n    y: string,\n}\n\nimpl P {\n    fn sum(self: P) -> int32 {\n        self.x\n    }\n}\n\n");
     t.push_str("trait Show {\n    fn show(Self) -> string;\n}\n\nimpl Show for P {\n    fn show(self: P) -> string {\n        self.y\n    }\n}\n\n");
     t.push_str("fn main() {\n");
-    let n = 2 + d.below(3);
-    for i in 0..n {
-        let (_, lit) = prims[(spec + i) % prims.len()];
-        let (ty, _) = prims[(spec + i) % prims.len()];
-        t.push_str(&format!("    let r{i}: {gname}[{ty}] = {gname} {{ value: {lit}, tag: {i} }};\n"));
+    for (i, (ty, lit)) in recvs.iter().enumerate() {
+        t.push_str(&format!("    let r{i}: {ty} = {lit};\n"));
     }
-    t.push_str("    let p: P = P { x: 1, y: \"a\" };\n    ()\n}\n");
-    t
+    t.push_str("    let p: P = P { x: 1, y: \"a\" };\n");
+    let mut marks = vec![];
+    if with_calls {
+        let mut k = 0;
+        let mut emit = |t: &mut String, recv: &str, m: &str, mty: &str| {
+            let line = t.matches('\n').count() as u32;
+            let head = format!("    let u{k} = {recv}.");
+            marks.push((line, head.len() as u32, m.to_string(), mty.to_string()));
+            t.push_str(&format!("{head}{m}();\n"));
+            k += 1;
+        };
+        for (i, ms) in meths.iter().enumerate() {
+            for (m, mty) in ms {
+                emit(&mut t, &format!("r{i}"), m, mty);
+            }
+        }
+        emit(&mut t, "p", "sum", "(P) -> int32");
+    }
+    t.push_str("    ()\n}\n");
+    (t, marks)
 }
 
 fn make_completion(d: &mut Dec, ctx: &mut Ctx) -> Value {
